@@ -1,1 +1,4 @@
-//! Monitors: recording device / handlers / formatters
+//! Monitors: recording device, scripted handlers, run-time command trees, fault-injecting formatter.
+pub mod dev;
+pub mod tree;
+pub mod capdispatch;
